@@ -67,6 +67,17 @@ def check_case(c, m, stim, target, newvals):
             if v != got:
                 return (f'after overwriting line {target} with {ov} (lane {lane}) position {p} captured {got}, a circuit in which that '
                         f'line is driven with {ov} gives {v}')
+    # an injection affects THAT propagation only: a plain propagation on the same simulator object afterwards gives the plain results
+    import io, contextlib
+    from kyupy import logic
+    with contextlib.redirect_stdout(io.StringIO()):
+        sim.s[0] = logic.mv_to_bp(stim)
+        sim.s_to_c(); sim.c_prop(); sim.c_to_s()
+    s1_after = logic.bp_to_mv(sim.s[1])[:, :stim.shape[1]]
+    if not np.array_equal(s1_after[mask], s1_plain[mask]):
+        p, lane = [int(x) for x in np.argwhere(s1_after != s1_plain)[0]]
+        return (f'a plain propagation AFTER the run that overwrote line {target} still differs from the plain results: position {p} lane {lane} '
+                f'captured {int(s1_after[p, lane])}, plain {int(s1_plain[p, lane])}')
     # the same must hold with memory reuse and with stripped forks (the injected signal is still evaluated there unless it
     # is a stripped fan-out branch)
     for reuse, strip in ((True, False), (False, True), (True, True)):
@@ -95,6 +106,35 @@ def check_case(c, m, stim, target, newvals):
     return None
 
 
+def const_circuit(rng):
+    """Directed shape: constant-0 drivers (tie-low cells, buffers with an open input) next to other readers of the constant -- gates with
+    an open pin, a tie-high cell (inverter with an open input) -- evaluated after them; the injection target is a constant-0 line."""
+    from kyupy.circuit import Circuit, Node, Line
+    c = Circuit('const')
+    nets = []
+    for i in range(rng.randint(1, 3)):
+        pi = Node(c, f'i{i}', 'input'); c.io_nodes.append(pi)
+        f = Node(c, f'i{i}', '__fork__'); Line(c, pi, f); nets.append(f)
+    consts = []
+    for i in range(rng.randint(1, 3)):
+        k = Node(c, f'k{i}', rng.choice(['__const0__', 'BUF1', 'buf', 'tiel']))
+        f = Node(c, f'k{i}', '__fork__'); l = Line(c, k, f); nets.append(f); consts.append(l)
+    if rng.random() < 0.6:
+        k = Node(c, 'h0', rng.choice(['__const1__', 'INV1', 'tieh']))
+        f = Node(c, 'h0', '__fork__'); Line(c, k, f); nets.append(f)
+    for g in range(rng.randint(2, 6)):
+        kind, ar = rng.choice([('OR2', 2), ('AND2', 2), ('XOR2', 2), ('or3', 3), ('AO21', 3), ('MUX21', 3), ('NOR2', 2), ('XNOR2', 2)])
+        cell = Node(c, f'g{g}', kind)
+        open_pin = rng.randrange(ar) if rng.random() < 0.5 else None
+        for p in range(ar):
+            if p != open_pin:
+                Line(c, rng.choice(nets), (cell, p))
+        f = Node(c, f'g{g}', '__fork__'); Line(c, cell, f); nets.append(f)
+    for i, f in enumerate(rng.sample(nets, min(len(nets), rng.randint(2, 4)))):
+        po = Node(c, f'o{i}', 'output'); c.io_nodes.append(po); Line(c, f, po)
+    return c, rng.choice(consts).index
+
+
 def run(ck):
     import random
     ok_t = sk.regen_tables(ck)
@@ -109,6 +149,11 @@ def run(ck):
         m = rng.choice([2, 4, 8])
         values = {2: [0, 3], 4: [0, 1, 2, 3], 8: list(range(8))}[m]
         c, a, sims, stim = sk.gen_case(rng, nrng, values)
+        forced = None
+        if i % 5 == 4:      # directed: inject at a constant-0 line
+            c, forced = const_circuit(rng)
+            stim = np.array(values, dtype=np.uint8)[nrng.integers(0, len(values), size=(len(c.s_nodes), sims))]
+            ck.count(1, 'constant-line injections')
         sims = stim.shape[1]
         sim0, err = sk.safe(lc.run_logicsim, c, m, stim, False, False)
         desc = {'circuit': cg.describe(c), 'm': m, 'stimulus': stim.tolist()}
@@ -117,7 +162,12 @@ def run(ck):
             continue
         lines_eval = [int(o[1]) for o in sim0[0].ops if o[1] < len(c.lines)]
         target = rng.choice(lines_eval) if lines_eval else None
+        if forced is not None and forced in lines_eval:
+            target = forced
         newvals = np.array(values, dtype=np.uint8)[nrng.integers(0, len(values), size=sims)]
+        if forced is not None:
+            newvals[:] = 3 if m == 2 else newvals     # a non-zero value on the constant line
+            newvals[0] = 3
         used = i % 3 == 1       # every simulator of this case has already simulated another batch
         desc.update({'target': target, 'newvals': newvals.tolist(), 'used_simulator': used})
         lc.WARM['on'] = used
